@@ -275,9 +275,12 @@ class DocGen:
         self.const = False
 
     # ---- values
-    def value(self, t, depth=0):
+    def value(self, t, depth=0, loc_default=False):
         rng = self.rng
         if isinstance(t, NonNullType):
+            if loc_default and not self.const and rng.random() < 0.35:
+                # a nullable variable is allowed at a non-null position that has a default
+                return self.var_for(t.type, False)
             return self.value_nn(t.type, depth, True)
         if rng.random() < 0.08:
             return ["null"]
@@ -319,7 +322,7 @@ class DocGen:
             fs = []
             for f in t.fields:
                 if f.required or rng.random() < (0.6 if depth < 2 else 0.2):
-                    fs.append([f.name, self.value(f.type, depth + 1)])
+                    fs.append([f.name, self.value(f.type, depth + 1, f.has_default_value)])
             rng.shuffle(fs)
             return ["obj", fs]
         if isinstance(t, EnumType):
@@ -342,7 +345,7 @@ class DocGen:
         out = []
         for a in adefs:
             if a.required or self.rng.random() < 0.45:
-                out.append([a.name, self.value(a.type)])
+                out.append([a.name, self.value(a.type, 0, a.has_default_value)])
         self.rng.shuffle(out)
         return out
 
